@@ -49,7 +49,7 @@ import re
 from stdnum import numdb
 from stdnum.exceptions import *
 from stdnum.iso7064 import mod_97_10
-from stdnum.util import clean, get_cc_module
+from stdnum.util import clean, get_cc_module, isdigits
 
 
 # our open copy of the IBAN database
@@ -100,6 +100,9 @@ def validate(number, check_country=True):
     """Check if the number provided is a valid IBAN. The country-specific
     check can be disabled with the check_country argument."""
     number = compact(number)
+    # the check digits are always numeric
+    if not isdigits(number[2:4]):
+        raise InvalidFormat()
     # ensure that checksum is valid
     mod_97_10.validate(number[4:] + number[:4])
     # look up the number
